@@ -39,6 +39,9 @@ const (
 	streamOpened streamState = iota
 	streamClosed
 	streamHalfClosed
+	// Close() was called while a callback was running: the stream is closed for the user,
+	// the callback goroutine finishes the close (and notifies the peer) when OnData returns.
+	streamLocalClosing
 )
 
 const (
@@ -277,7 +280,7 @@ func (s *Stream) Close() error {
 		atomic.StoreUint32(&s.callbackCloseState, uint32(callbackWaitExit))
 	}
 	if atomic.LoadUint32(&s.callbackInProcess) == 1 {
-		atomic.CompareAndSwapUint32(&s.state, uint32(streamOpened), uint32(streamHalfClosed))
+		atomic.CompareAndSwapUint32(&s.state, uint32(streamOpened), uint32(streamLocalClosing))
 		return nil
 	}
 
@@ -297,7 +300,7 @@ func (s *Stream) close() error {
 			s.asyncGoroutineWg.Wait()
 		}
 		s.clean()
-		if oldState == uint32(streamOpened) {
+		if oldState == uint32(streamOpened) || oldState == uint32(streamLocalClosing) {
 			s.safeCloseNotify()
 			callback := s.getCallbacks()
 			if callback != nil {
